@@ -76,7 +76,10 @@ def search(test_fn, hyp_seed, n_examples, shrink=True, max_shrink_s=60):
             # shrink budget exhausted: make the remaining shrink attempts trivially pass so that Hypothesis
             # settles on the best example found so far
             return
+        old_limit = sys.getrecursionlimit()
         try:
+            # Hypothesis caps the recursion limit while a test runs; the reference interpreter needs a deep stack
+            sys.setrecursionlimit(max(old_limit, 1000000))
             test_fn(rng, stats)
         except Failure as f:
             stats.frozen = True
@@ -85,6 +88,8 @@ def search(test_fn, hyp_seed, n_examples, shrink=True, max_shrink_s=60):
             last['case'] = f.case
             last['why'] = f.why
             raise
+        finally:
+            sys.setrecursionlimit(old_limit)
 
     try:
         run()
@@ -92,7 +97,7 @@ def search(test_fn, hyp_seed, n_examples, shrink=True, max_shrink_s=60):
         pass
     except Exception as e:  # Hypothesis wraps/re-raises; anything else is a harness error
         if 'case' not in last:
-            stats.notes.append('worker error: ' + traceback.format_exc()[-1500:])
+            stats.notes.append('worker error: ' + traceback.format_exc()[-600:])
     return stats, (dict(last) if 'case' in last else None)
 
 
@@ -101,8 +106,18 @@ def _worker(args):
     import importlib
     mod = importlib.import_module(fn_module)
     fn = getattr(mod, fn_name)
-    sys.setrecursionlimit(20000)
-    stats, failure = search(lambda rng, st_: fn(rng, st_, extra), hyp_seed, n)
+    # deep X recursion in the reference interpreter needs a deep Python stack: run in a thread with a large one
+    import threading
+    sys.setrecursionlimit(1000000)
+    threading.stack_size(1024 * 1024 * 1024)
+    box = {}
+
+    def work():
+        box['r'] = search(lambda rng, st_: fn(rng, st_, extra), hyp_seed, n)
+    t = threading.Thread(target=work)
+    t.start()
+    t.join()
+    stats, failure = box['r']
     return stats.to_dict(), failure
 
 
@@ -113,8 +128,15 @@ def fan_out(ctx, fn_module, fn_name, n_per_worker, extra=None, workers=None, see
     with multiprocessing.get_context('fork').Pool(W) as pool:
         results = pool.map(_worker, jobs, chunksize=1)
     failures = []
+    errs = set()
     for sd, failure in results:
+        for n in sd.get('notes', []):
+            if n.startswith('worker error'):
+                errs.add(n[-400:])
+        sd['notes'] = []
         ctx.merge_worker(sd)
         if failure:
             failures.append(failure)
+    for e in sorted(errs)[:3]:
+        ctx.error('a Hypothesis worker stopped early: ' + e)
     return failures
